@@ -316,16 +316,31 @@ Section StepSkeletons.
   Qed.
 
   (** [Step.run_step]: in-arguments set first, removed only after normal completion; while wraps
-      foreach-or-conditional.  (Step descriptions are not modelled: [self.description] is None.) *)
+      foreach-or-conditional; a step with a description formats it and evaluates run / skip once more up front *)
   Lemma gen_step_run_step_is_model sp s :
     gen_step_run_step sp (fun s => (OOk, set_step_input sp s)) (fun s => (OOk, unset_step_input sp s))
       (fun w => while_loop rg rp w sp) (foreach_or_cond rg rp sp no_counters) s
     = run_step rg rp sp s.
   Proof.
-    unfold gen_step_run_step, run_step. simpl andthen. cbv zeta.
-    destruct (s_while sp) as [w|].
-    - destruct (while_loop rg rp w sp _) as [[| | |] s1]; reflexivity.
-    - destruct (foreach_or_cond rg rp sp no_counters _) as [[| | |] s1]; reflexivity.
+    unfold gen_step_run_step, run_step, describe, run_step_core. simpl andthen. cbv zeta.
+    assert (C : forall s1,
+      match s_while sp with
+      | Some w => andthen (while_loop rg rp w sp s1) (fun s8 => andthen (OOk, unset_step_input sp s8) (fun s9 => (OOk, s9)))
+      | None => andthen (foreach_or_cond rg rp sp no_counters s1)
+                        (fun s10 => andthen (OOk, unset_step_input sp s10) (fun s11 => (OOk, s11)))
+      end
+      = andthen match s_while sp with
+                | Some w => while_loop rg rp w sp s1
+                | None => foreach_or_cond rg rp sp no_counters s1
+                end (fun s2 => (OOk, unset_step_input sp s2))).
+    { intros s1. destruct (s_while sp) as [w|].
+      - destruct (while_loop rg rp w sp s1) as [[| | |] s2]; reflexivity.
+      - destruct (foreach_or_cond rg rp sp no_counters s1) as [[| | |] s2]; reflexivity. }
+    destruct (s_desc sp) as [d|]; [|apply C].
+    destruct (py_truth d); [|apply C].
+    destruct (fmt _ d) as [x|n m|]; try reflexivity. simpl lift.
+    destruct (as_bool _ (s_run sp)) as [[|]|n m|]; try reflexivity; simpl lift; cbv iota; [|apply C].
+    destruct (as_bool _ (s_skip sp)) as [b|n m|]; try reflexivity. simpl lift. apply C.
   Qed.
 
   (** [WhileDecorator.exec_iteration] *)
